@@ -222,6 +222,117 @@ func CallsTo(fn *ssa.Function, names ...string) []ssa.Instruction {
 	return out
 }
 
+// wrapperInner: call is a plain call to a same-module function h that is a *wrapper* of name:
+// h contains exactly one plain call of name, and every success return of h (every return, when
+// name has no error result) is cut off by that call's success edge (by the call).  Success of
+// the wrapper therefore implies the wrapped call happened and succeeded.
+func wrapperInner(call ssa.Instruction, name string) (*ssa.Function, ssa.Instruction) {
+	cl, ok := call.(*ssa.Call)
+	if !ok {
+		return nil, nil
+	}
+	h := cl.Call.StaticCallee()
+	if h == nil || h.Blocks == nil || !isJivaFn(h) || FnName(h) == name || h == call.Parent() {
+		return nil, nil
+	}
+	inner := CallsTo(h, name)
+	if len(inner) != 1 {
+		return nil, nil
+	}
+	in := inner[0]
+	var sites []ssa.Instruction
+	q := Query{Fn: h}
+	if ev := errOfCall(in); ev != nil && errResultIndex(h) >= 0 {
+		ei := errResultIndex(h)
+		for _, r := range successReturns(h) {
+			// returning the wrapped call's own error value passes its verdict on
+			if rr, ok := r.(*ssa.Return); ok && ei < len(rr.Results) && strip(rr.Results[ei]) == strip(ev) {
+				continue
+			}
+			sites = append(sites, r)
+		}
+		if len(sites) == 0 {
+			return h, in
+		}
+		q.GenEdge = successEdgesOfCall(h, in)
+	} else {
+		for _, r := range Returns(h) {
+			sites = append(sites, r)
+		}
+		q.Gen = func(x ssa.Instruction) bool { return x == in }
+	}
+	if len(sites) == 0 {
+		return nil, nil
+	}
+	q.IsSite = func(x ssa.Instruction) bool {
+		for _, s := range sites {
+			if s == x {
+				return true
+			}
+		}
+		return false
+	}
+	if len(q.Run()) > 0 {
+		return nil, nil
+	}
+	return h, in
+}
+
+// successNotVia: witnesses of success returns of fn that neither return call's own error value
+// nor are cut off by call's success edge.
+func successNotVia(fn *ssa.Function, call ssa.Instruction) []Witness {
+	ev := errOfCall(call)
+	ei := errResultIndex(fn)
+	var sites []ssa.Instruction
+	for _, r := range successReturns(fn) {
+		if rr, ok := r.(*ssa.Return); ok && ev != nil && ei >= 0 && ei < len(rr.Results) && strip(rr.Results[ei]) == strip(ev) {
+			continue
+		}
+		sites = append(sites, r)
+	}
+	if len(sites) == 0 {
+		return nil
+	}
+	return Query{Fn: fn, GenEdge: successEdgesOfCall(fn, call), IsSite: func(x ssa.Instruction) bool {
+		for _, s := range sites {
+			if s == x {
+				return true
+			}
+		}
+		return false
+	}}.Run()
+}
+
+// CallsToW: plain calls of name in fn, directly or through a wrapper (wrapperInner).
+func CallsToW(fn *ssa.Function, name string) []ssa.Instruction {
+	var out []ssa.Instruction
+	eachInstr(fn, func(in ssa.Instruction) {
+		if !isPlainCall(in) {
+			return
+		}
+		if callMatches(in, name) {
+			out = append(out, in)
+			return
+		}
+		if h, _ := wrapperInner(in, name); h != nil {
+			out = append(out, in)
+		}
+	})
+	return out
+}
+
+// renderVia: the call of name as seen from fn: the call itself, or the wrapped call with the
+// wrapper's parameters replaced by the arguments of the wrapper call.
+func renderVia(R *Renderer, call ssa.Instruction, name string) string {
+	if callMatches(call, name) {
+		return callRender(R, call)
+	}
+	if h, inner := wrapperInner(call, name); h != nil {
+		return substParams(callRender(NewRenderer(h), inner), callArgs(R, call.(ssa.CallInstruction)))
+	}
+	return callRender(R, call)
+}
+
 // AnyCallsTo also includes go and defer statements.
 func AnyCallsTo(fn *ssa.Function, names ...string) []ssa.Instruction {
 	var out []ssa.Instruction
